@@ -142,6 +142,7 @@ func Load(repo string, goarch string, overlay map[string][]byte) *Prog {
 	for _, fn := range p.Funcs {
 		p.FuncByID[funcID(fn)] = fn
 	}
+	resolveFieldAliases(p)
 	return p
 }
 
